@@ -127,17 +127,32 @@ impl TimeDelta {
     fn concrete(self, _what: &str) -> i64 {
         vrt::concretize(self.secs, -400 * 366 * DAY, 400 * 366 * DAY)
     }
+    /// Whole units in the delta, truncated toward zero like chrono: only the QUOTIENT is made
+    /// concrete (bisection over the feasible quotients), the seconds stay symbolic.
+    fn whole_units(self, unit: i64) -> i64 {
+        if let Some(n) = self.secs.as_const() {
+            return n / unit;
+        }
+        let span = 400 * 366 * DAY / unit;
+        let q = vrt::concretize(self.secs.div_floor_const(unit), -span - 1, span);
+        // floor and truncation differ for negative values that are not a whole number of units
+        if q < 0 && vrt::decide(self.secs.ne(SymInt::Const(q * unit))) {
+            q + 1
+        } else {
+            q
+        }
+    }
     pub fn num_weeks(self) -> i64 {
-        self.concrete("num_weeks") / (7 * DAY)
+        self.whole_units(7 * DAY)
     }
     pub fn num_days(self) -> i64 {
-        self.concrete("num_days") / DAY
+        self.whole_units(DAY)
     }
     pub fn num_hours(self) -> i64 {
-        self.concrete("num_hours") / 3600
+        self.whole_units(3600)
     }
     pub fn num_minutes(self) -> i64 {
-        self.concrete("num_minutes") / 60
+        self.whole_units(60)
     }
     pub fn num_seconds(self) -> i64 {
         self.concrete("num_seconds")
